@@ -283,12 +283,33 @@ func runC07(c *eng.Ctx) {
 				}
 			}
 			if !cleared {
-				// or every entry deleted
+				// or every entry deleted: the delete sits in a loop over the table and no path through the loop body skips it
 				eng.Instrs(fn, func(in ssa.Instruction) {
-					if call, ok := in.(*ssa.Call); ok {
-						if b, ok := call.Call.Value.(*ssa.Builtin); ok && b.Name() == "delete" && eng.Load(fo, nil)(call.Call.Args[0]) {
-							cleared = true
+					call, ok := in.(*ssa.Call)
+					if !ok {
+						return
+					}
+					b, ok := call.Call.Value.(*ssa.Builtin)
+					if !ok || b.Name() != "delete" || !eng.Load(fo, nil)(call.Call.Args[0]) {
+						return
+					}
+					hdr := in.Block()
+					for hdr != nil && !isLoopHeader(hdr) {
+						hdr = hdr.Idom()
+					}
+					if hdr == nil {
+						return
+					}
+					// from the loop body's entry back to the header without deleting?
+					var body []eng.Edge
+					for si, sb := range hdr.Succs {
+						if sb.Dominates(in.Block()) || sb == in.Block() {
+							body = append(body, eng.Edge{From: hdr, Succ: si})
 						}
+					}
+					q := &eng.PathQuery{Fn: fn, FromEdges: body, Target: func(x ssa.Instruction) bool { return x == hdr.Instrs[0] }, CutInstr: func(x ssa.Instruction) bool { return x == in }}
+					if len(body) > 0 && q.Find() == nil {
+						cleared = true
 					}
 				})
 			}
